@@ -67,7 +67,7 @@ const NONHTTP: &[&str] = &["ftp://files.test/x", "mailto:someone@a.test", "data:
 const FOLLOWED: &[u16] = &[301, 302, 303, 307, 308];
 
 fn path_strategy() -> BoxedStrategy<String> {
-    proptest::collection::vec(prop_oneof![4 => "[a-z0-9]{1,4}", 1 => Just(String::new()).prop_map(|s| s), 1 => "[a-z]\\.[a-z]"], 0..4)
+    proptest::collection::vec(prop_oneof![8 => "[a-z0-9]{1,4}", 2 => Just(String::new()).prop_map(|s| s), 2 => "[a-z]\\.[a-z]", 1 => Just("caf\u{e9}".to_string()), 1 => Just("\u{65e5}\u{672c}".to_string())], 0..4)
         .prop_map(|mut segs: Vec<String>| {
             // a path starting with "//" would be a network-path reference
             if segs.first().map(|s| s.is_empty()).unwrap_or(false) && segs.len() > 1 {
@@ -172,6 +172,18 @@ enum Expect {
     AnyErrOrUnmodelled,
 }
 
+fn enc_non_ascii(t: &str) -> String {
+    let mut o = String::new();
+    for b in t.bytes() {
+        if b >= 0x80 {
+            o.push_str(&format!("%{b:02X}"));
+        } else {
+            o.push(b as char);
+        }
+    }
+    o
+}
+
 impl Property for C09 {
     type Case = Case;
     const ID: &'static str = "C09";
@@ -234,7 +246,10 @@ final outcome. non-trivial = >= 2 requests, or the bound hit exactly, or a relat
     }
 
     fn check(case: &Case, ctx: &mut Ctx) -> Outcome {
-        let start = http_url(&case.start);
+        let mut start = http_url(&case.start);
+        // raw UTF-8 octets are percent-encoded when a URL is formed: the model works with the encoded form throughout
+        start.path = enc_non_ascii(&start.path);
+        start.query = start.query.map(|q| enc_non_ascii(&q));
         // ---- model walk -------------------------------------------------------------------------
         let mut urls: Vec<HttpUrl> = vec![start.clone()]; // URL of the n-th request
         let mut responses: Vec<Vec<u8>> = vec![];
@@ -250,13 +265,23 @@ final outcome. non-trivial = >= 2 requests, or the bound hit exactly, or a relat
                 None => (case.terminal, Loc::Absent, false),
             };
             let loc_bytes = if i < case.hops.len() { render_loc(&loc, fragment, &start, &cur) } else { None };
-            let mut resp = format!("HTTP/1.1 {status} Hop\r\nContent-Length: 0\r\n").into_bytes();
+            // a redirect's own body plays no part in following it, whether it can be read to a clean end or not
+            let body_variant = if i < case.hops.len() && FOLLOWED.contains(&status) { (i + case.hops.len() + case.max_redirections as usize) % 4 } else { 0 };
+            let (framing_hdr, body): (&str, &[u8]) = match body_variant {
+                1 => ("Content-Length: 10\r\n", b"abc"),
+                2 => ("Transfer-Encoding: chunked\r\n", b"5\r\nhello\r\n"),
+                3 => ("Content-Encoding: gzip\r\nContent-Length: 16\r\n", b"this is not gzip"),
+                _ => ("Content-Length: 0\r\n", b""),
+            };
+            ctx.label_if(body_variant != 0, "redirect-with-an-unreadable-body");
+            let mut resp = format!("HTTP/1.1 {status} Hop\r\n{framing_hdr}").into_bytes();
             if let Some(l) = &loc_bytes {
                 resp.extend_from_slice(b"Location: ");
                 resp.extend_from_slice(l);
                 resp.extend_from_slice(b"\r\n");
             }
             resp.extend_from_slice(b"\r\n");
+            resp.extend_from_slice(body);
             responses.push(resp);
             let is_redirect = FOLLOWED.contains(&status) && i < case.hops.len();
             if !case.follow || !is_redirect {
@@ -270,7 +295,16 @@ final outcome. non-trivial = >= 2 requests, or the bound hit exactly, or a relat
                 Some(b) => match std::str::from_utf8(b) {
                     Err(_) => Err(Expect::AnyErrOrUnmodelled),
                     Ok(s) => match resolve_location(&cur, s) {
-                        Resolved::Http(u) => Ok(u),
+                        Resolved::Http(mut u) => {
+                            // raw UTF-8 octets in a Location are percent-encoded when the URL is formed
+                            let enc = enc_non_ascii;
+                            if !u.path.is_ascii() {
+                                ctx.label("location-with-raw-utf-8");
+                            }
+                            u.path = enc(&u.path);
+                            u.query = u.query.map(|q| enc(&q));
+                            Ok(u)
+                        }
                         _ => Err(Expect::SomeErr),
                     },
                 },
